@@ -152,6 +152,10 @@ func (it *Interp) leaf(fr *Frame, x *ssa.Call, fn *ssa.Function, args []Value) V
 		if out.Up != nil && out.Up.Rep != nil {
 			it.materialise(out.Up)
 		}
+		if len(r.mons) > 16 {
+			// the last move of a complete table look-up: what the destination held before cannot survive
+			r = CompleteFamilies(r)
+		}
 		it.setRep(out, &Rep{r})
 	case "cmovznzU64":
 		sel, ok := asTerm(args[1])
